@@ -2,7 +2,8 @@ import EmmyVerif.Model.SchedReload
 import EmmyVerif.Gen.SchedReloadCfg
 import EmmyVerif.Drv.Util
 /-! Driver ops of the `SchedReload` family (C29). Notifications: `e<u>:<t>` open/change, `x<u>` close; disk `<u>=<t>,…`;
-config `real` (= `Gen.reloadCfg`), `noloop`, `nobumpclose`, `nobumpsync`. -/
+config `real` (= `Gen.reloadCfg`), `noloop`, `nobumpclose`, `nobumpsync`, `testfirst`.
+A matcher is `all` or the `.`-separated list of EXCLUDED uris (`2.3`); reload requests = comma list of matchers, `-` = none. -/
 namespace Drv.SchedReload
 open _root_.SchedReload
 
@@ -29,7 +30,13 @@ def parseCfg (s : String) : Option Cfg :=
   else if s == "noloop" then some { realCfg with syncLoop := false }
   else if s == "nobumpclose" then some { realCfg with bumpOnClose := false }
   else if s == "nobumpsync" then some { realCfg with bumpOnSync := false }
+  else if s == "testfirst" then some { realCfg with syncBeforeCheck := false }
   else none
+
+def parseMatcher (s : String) : Option (Nat → Bool) :=
+  if s == "all" then some (fun _ => true) else do
+    let ex ← (s.splitOn ".").mapM String.toNat?
+    pure (fun u => !ex.contains u)
 
 def parseLabel (s : String) : Option Label :=
   if s == "main" then some .main else if s == "reload" then some .reload else if s == "rstep" then some .rstep else none
@@ -40,27 +47,31 @@ def showOpt : Option Nat → String
 
 def handle (op : String) (args : List String) : Option String :=
   match op, args with
-  | "explore", [cfg, disk, us, ms, reloads, fuel] => do
+  | "explore", [cfg, disk, us, ms, m0, reloads, fuel] => do
     let cfg ← parseCfg cfg
     let d ← parseDisk disk
     let us ← parseList String.toNat? us
     let ms ← parseList parseNotif ms
-    let k ← reloads.toNat?
+    let m0 ← parseMatcher m0
+    let k ← parseList parseMatcher reloads
     let fuel ← fuel.toNat?
-    pure (match explore cfg d us fuel [(init d ms k, [])] 0 with
+    pure (match explore cfg d us fuel [(init d m0 ms k, [])] 0 with
       | .error e => s!"err {e}"
       | .ok (none, n) => s!"ok all-consistent schedules={n}"
       | .ok (some p, n) => s!"ok counter schedules={n} schedule={Drv.joinWith "," (p.map showLabel)}")
-  | "final", [disk, us, ms] => do
-    -- what every quiescent state must look like: wm after the notifications in order, overlaid on the disk
+  | "final", [disk, us, ms, mfinal] => do
+    -- what every quiescent state must look like for the uris that are workspace files under the final matcher:
+    -- wm after the notifications in order, overlaid on the disk; `*` = not a workspace file, nothing claimed
     let d ← parseDisk disk
     let us ← parseList String.toNat? us
     let ms ← parseList parseNotif ms
+    let m ← parseMatcher mfinal
     let sched := List.replicate (3 * ms.length) Label.main
-    pure (match run realCfg d (init d ms 0) sched with
+    pure (match run realCfg d (init d (fun _ => true) ms []) sched with
       | none => "err run"
-      | some s => "ok " ++ Drv.joinWith "," (us.map (fun u => s!"{showOpt (s.wm u)}/{showOpt (overlay s.wm d u)}")))
-  | "cfg", [] => pure s!"ok bumpOnSync={Gen.reloadCfg.bumpOnSync} bumpOnClose={Gen.reloadCfg.bumpOnClose} syncLoop={Gen.reloadCfg.syncLoop} snapshotAtomic={Gen.reloadSnapshotAtomic} prefersOpenText={Gen.reloadPrefersOpenText}"
+      | some s => "ok " ++ Drv.joinWith "," (us.map (fun u =>
+          s!"{showOpt (s.wm u)}/{if m u then showOpt (overlay s.wm d u) else "*"}")))
+  | "cfg", [] => pure s!"ok bumpOnSync={Gen.reloadCfg.bumpOnSync} bumpOnClose={Gen.reloadCfg.bumpOnClose} syncLoop={Gen.reloadCfg.syncLoop} syncBeforeCheck={Gen.reloadCfg.syncBeforeCheck} membershipWithSync={Gen.reloadMembershipWithSync} snapshotAtomic={Gen.reloadSnapshotAtomic} prefersOpenText={Gen.reloadPrefersOpenText}"
   | _, _ => none
 
 end Drv.SchedReload
